@@ -43,19 +43,45 @@ TECHNIQUE = "property-based testing (Hypothesis) against a matrix-exponential or
 
 EPS = float(np.finfo(float).eps)
 US = 1e-6
-_MU = [None]
+# Central bodies of the Hill frame.  GEN_MU only sizes the drawn time spans (the generator must not
+# import beyond); the oracle takes mu from beyond.constants (a constant, not the code under test),
+# for the made-up body from its own mass x G.
+GEN_MU = {"Earth": 3.986004418e14, "Mars": 4.2828e13, "Moon": 4.9e12, "Custom": 6.674e13}
+SMA_RANGE = {"Earth": (6.6e6, 4.3e7), "Mars": (3.6e6, 2.2e7), "Moon": (1.8e6, 1.2e7), "Custom": (5.0e6, 3.0e7)}
+CUSTOM_MASS = 1.0e24
+_MU = {}
+_CENTERS = {}
 
 
-def mu():
-    if _MU[0] is None:
+def mu(body="Earth"):
+    if body not in _MU:
         from beyond import constants
 
-        _MU[0] = float(constants.Earth.mu)
-    return _MU[0]
+        _MU[body] = float(CUSTOM_MASS * constants.G) if body == "Custom" else float(getattr(constants, body).mu)
+    return _MU[body]
 
 
-def mean_motion(sma):
-    return math.sqrt(mu() / sma**3)
+def center_of(body):
+    """Centre of a Hill frame about `body` (one object per process; the Earth one is beyond's own)."""
+    if body not in _CENTERS:
+        from beyond import constants
+        from beyond.frames import center
+
+        if body == "Earth":
+            _CENTERS[body] = center.Earth
+        elif body == "Custom":
+            _CENTERS[body] = center.Center("VFCustom", body=constants.Body("VFCustom", CUSTOM_MASS, 5.0e6))
+        else:
+            _CENTERS[body] = center.Center(f"VF{body}", body=getattr(constants, body))
+    return _CENTERS[body]
+
+
+def body_of(case):
+    return case.get("body", "Earth")
+
+
+def mean_motion(sma, body="Earth"):
+    return math.sqrt(mu(body) / sma**3)
 
 
 # ------------------------------------------------------------------ library objects
@@ -95,7 +121,7 @@ def make_orbit(case, ori=None, x0=None, mans=None):
     from beyond.orbits import Orbit
     from beyond.propagators.cw import ClohessyWiltshire
 
-    frame = HillFrame(orientation=ori or case["ori"])
+    frame = HillFrame(orientation=ori or case["ori"], center=center_of(body_of(case)))
     prop = ClohessyWiltshire(case["sma"], frame=frame)
     epoch = epoch_date(case["k0"])
     orb = Orbit(list(case["x0"] if x0 is None else x0), epoch, "cartesian", frame, prop)
@@ -137,17 +163,22 @@ def draw_state(d, rmax=5000.0, vmax=5.0):
 
 
 def draw_target(d):
-    sma = d.pick(6.6e6, 6.778e6, 4.2164e7, 4.3e7) if d.int(0, 3) == 0 else d.u(6.6e6, 4.3e7)
-    return sma, d.pick("QSW", "TNW"), d.int(0, 86_399_999_999)
+    body = d.pick("Earth", "Earth", "Earth", "Mars", "Moon", "Custom")
+    lo, hi = SMA_RANGE[body]
+    if body == "Earth" and d.int(0, 3) == 0:
+        sma = d.pick(6.6e6, 6.778e6, 4.2164e7, 4.3e7)
+    else:
+        sma = d.u(lo, hi)
+    return sma, d.pick("QSW", "TNW"), d.int(0, 86_399_999_999), body
 
 
-def period_us(sma):
-    return int(2 * math.pi / math.sqrt(3.986004418e14 / sma**3) * 1e6)
+def period_us(sma, body="Earth"):
+    return int(2 * math.pi / math.sqrt(GEN_MU[body] / sma**3) * 1e6)
 
 
-def draw_mans(d, sma, nmax=4, kinds=("imp", "cont"), min_gap=0):
+def draw_mans(d, sma, nmax=4, kinds=("imp", "cont"), min_gap=0, body="Earth"):
     """Chronological, non-overlapping maneuvers within ~2 periods after the epoch."""
-    P = period_us(sma)
+    P = period_us(sma, body)
     mans = []
     now = 0
     for _ in range(d.int(0, nmax)):
@@ -168,9 +199,9 @@ def draw_mans(d, sma, nmax=4, kinds=("imp", "cont"), min_gap=0):
     return mans
 
 
-def draw_queries(d, sma, mans, count):
+def draw_queries(d, sma, mans, count, body="Earth"):
     """Times of interest: around every maneuver edge, inside thrust arcs, anywhere in +-2 periods."""
-    P = period_us(sma)
+    P = period_us(sma, body)
     pool = [0]
     for m in mans:
         pool += [m["t"] - 1, m["t"], m["t"] + 1]
@@ -189,7 +220,7 @@ def draw_queries(d, sma, mans, count):
 
 
 def classes(case, extra=()):
-    c = [case["ori"], "leo" if case["sma"] < 8e6 else "geo" if case["sma"] > 4e7 else "meo"]
+    c = [case["ori"], body_of(case), "leo" if case["sma"] < 8e6 else "geo" if case["sma"] > 4e7 else "meo"]
     mans = case.get("mans", [])
     c.append(f"mans:{len(mans)}")
     if any(m["kind"] == "cont" for m in mans):
@@ -211,17 +242,17 @@ def tol_state(n, scale, nt, nseg=1):
 @st.composite
 def sol_case(draw, shard, tier):
     d = D(draw)
-    sma, ori, k0 = draw_target(d)
-    mans = draw_mans(d, sma)
+    sma, ori, k0, body = draw_target(d)
+    mans = draw_mans(d, sma, body=body)
     return dict(sma=sma, ori=ori, k0=k0, x0=draw_state(d), mans=mans,
-                qs=draw_queries(d, sma, mans, d.int(3, 7)), api=d.pick("date", "date", "delta", "iter", "range"))
+                qs=draw_queries(d, sma, mans, d.int(3, 7), body), body=body, api=d.pick("date", "date", "delta", "iter", "range"))
 
 
 def check_solution(case):
     from beyond.dates import timedelta
 
     orb, epoch = make_orbit(case)
-    n = mean_motion(case["sma"])
+    n = mean_motion(case["sma"], body_of(case))
     if abs(float(orb.propagator.n) / n - 1) > 4 * EPS:
         raise Violation("mean-motion", f"propagator.n = {float(orb.propagator.n)!r}, sqrt(mu/a^3) = {n!r}")
     events = oracle_events(case["mans"])
@@ -277,10 +308,10 @@ def check_solution(case):
 # ------------------------------------------------------------------ overlap
 
 
-def draw_overlapping(d, sma):
+def draw_overlapping(d, sma, body="Earth"):
     """2-4 maneuvers in chronological order of their start, at least one pair overlapping: an impulse
     strictly inside a thrust arc, or two arcs thrusting at once."""
-    P = period_us(sma)
+    P = period_us(sma, body)
     t0 = int(d.u(0, P / 2))
     dur = 2 * int(d.u(5_000_000, P / 2))
     mans = [dict(kind="cont", t=t0, dur=dur, accel=[d.signed(1e-6, 1e-2) for _ in range(3)])]
@@ -307,14 +338,14 @@ def overlap_active(mans, k):
 @st.composite
 def overlap_case(draw, shard, tier):
     d = D(draw)
-    sma, ori, k0 = draw_target(d)
-    mans = draw_overlapping(d, sma)
-    return dict(sma=sma, ori=ori, k0=k0, x0=draw_state(d), mans=mans, qs=draw_queries(d, sma, mans, d.int(3, 6)))
+    sma, ori, k0, body = draw_target(d)
+    mans = draw_overlapping(d, sma, body)
+    return dict(sma=sma, ori=ori, k0=k0, x0=draw_state(d), mans=mans, qs=draw_queries(d, sma, mans, d.int(3, 6), body), body=body)
 
 
 def check_overlap(case):
     orb, epoch = make_orbit(case)
-    n = mean_motion(case["sma"])
+    n = mean_motion(case["sma"], body_of(case))
     events = oracle_events(case["mans"])
     x0 = np.array(case["x0"], float)
     worst = 0.0
@@ -359,9 +390,9 @@ FINDINGS = {"C16/maneuver-inside-thrust-arc": maneuver_inside_thrust_arc}
 @st.composite
 def comp_case(draw, shard, tier):
     d = D(draw)
-    sma, ori, k0 = draw_target(d)
-    P = period_us(sma)
-    return dict(sma=sma, ori=ori, k0=k0, x0=draw_state(d), t1=int(d.u(-2.0, 2.0) * P),
+    sma, ori, k0, body = draw_target(d)
+    P = period_us(sma, body)
+    return dict(sma=sma, ori=ori, k0=k0, x0=draw_state(d), body=body, t1=int(d.u(-2.0, 2.0) * P),
                 t2=int(d.u(-2.0, 2.0) * P))
 
 
@@ -369,7 +400,7 @@ def check_composition(case):
     from beyond.orbits import Orbit
 
     orb, epoch = make_orbit(case, mans=[])
-    n = mean_motion(case["sma"])
+    n = mean_motion(case["sma"], body_of(case))
     t1, t2 = case["t1"], case["t2"]
     mid = orb.propagate(at(epoch, t1))
     direct = state_of(orb.propagate(at(epoch, t1 + t2)))
@@ -397,21 +428,21 @@ def check_composition(case):
 @st.composite
 def imp_case(draw, shard, tier):
     d = D(draw)
-    sma, ori, k0 = draw_target(d)
-    mans = draw_mans(d, sma, nmax=3, min_gap=1_000_000)
+    sma, ori, k0, body = draw_target(d)
+    mans = draw_mans(d, sma, nmax=3, min_gap=1_000_000, body=body)
     # make sure there is an impulse, and pick one
     if not any(m["kind"] == "imp" for m in mans):
         end = max([0] + [m["t"] + m.get("dur", 0) for m in mans])
-        mans.append(dict(kind="imp", t=end + 1_000_000 + int(d.u(0, period_us(sma) / 2)),
+        mans.append(dict(kind="imp", t=end + 1_000_000 + int(d.u(0, period_us(sma, body) / 2)),
                          dv=[d.signed(1e-3, 2.0) for _ in range(3)]))
     imps = [j for j, m in enumerate(mans) if m["kind"] == "imp"]
-    return dict(sma=sma, ori=ori, k0=k0, x0=draw_state(d), mans=mans, which=imps[d.int(0, 100) % len(imps)],
+    return dict(sma=sma, ori=ori, k0=k0, x0=draw_state(d), mans=mans, body=body, which=imps[d.int(0, 100) % len(imps)],
                 later=d.u(0.0, 1.0))
 
 
 def check_impulse(case):
     orb, epoch = make_orbit(case)
-    n = mean_motion(case["sma"])
+    n = mean_motion(case["sma"], body_of(case))
     mans = case["mans"]
     m = mans[case["which"]]
     tm = m["t"]
@@ -439,7 +470,7 @@ def check_impulse(case):
         raise Violation("not-repeatable", "two propagations to the impulse date differ")
     # until the next maneuver the motion is free: the impulse is not applied again later
     nxt = [mm["t"] for mm in mans[case["which"] + 1:]]
-    horizon = (min(nxt) if nxt else tm + 2 * period_us(case["sma"])) - tm
+    horizon = (min(nxt) if nxt else tm + 2 * period_us(case["sma"], body_of(case))) - tm
     dt = int(case["later"] * max(horizon - 1, 0))
     far = state_of(orb.propagate(at(epoch, tm + dt)))
     coast3 = np.asarray(hill.advance(n, on, dt * US, None, case["ori"]), float)
@@ -457,9 +488,9 @@ def check_impulse(case):
 @st.composite
 def perm_case(draw, shard, tier):
     d = D(draw)
-    sma, _, k0 = draw_target(d)
-    mans = draw_mans(d, sma, nmax=3)
-    return dict(sma=sma, ori="QSW", k0=k0, x0=draw_state(d), mans=mans, qs=draw_queries(d, sma, mans, d.int(2, 5)))
+    sma, _, k0, body = draw_target(d)
+    mans = draw_mans(d, sma, nmax=3, body=body)
+    return dict(sma=sma, ori="QSW", k0=k0, x0=draw_state(d), mans=mans, qs=draw_queries(d, sma, mans, d.int(2, 5), body), body=body)
 
 
 def permute_mans(mans, m3):
@@ -474,7 +505,7 @@ def permute_mans(mans, m3):
 
 
 def check_permutation(case):
-    n = mean_motion(case["sma"])
+    n = mean_motion(case["sma"], body_of(case))
     m6 = hill.perm6("TNW")
     orb_q, epoch = make_orbit(case, ori="QSW")
     res_q = [state_of(orb_q.propagate(at(epoch, k))) for k in case["qs"]]
@@ -503,21 +534,22 @@ def check_permutation(case):
 @st.composite
 def kep_case(draw, shard, tier):
     d = D(draw)
-    sma, ori, k0 = draw_target(d)
-    n = math.sqrt(3.986004418e14 / sma**3)
+    sma, ori, k0, body = draw_target(d)
+    n = math.sqrt(GEN_MU[body] / sma**3)
     rho = d.u(20.0, 100.0)
     # direction cosines, speed <= n * rho
     dirs = [d.u(-1.0, 1.0) for _ in range(6)]
     x0 = [rho * c for c in dirs[:3]] + [n * rho * c for c in dirs[3:]]
-    return dict(sma=sma, ori=ori, k0=k0, x0=x0, inc=d.u(0.05, 3.0), raan=d.u(0, 6.28), u0=d.u(0, 6.28),
-                t=int(d.u(-2.0, 2.0) * period_us(sma)))
+    return dict(sma=sma, ori=ori, k0=k0, body=body, x0=x0, inc=d.u(0.05, 3.0), raan=d.u(0, 6.28), u0=d.u(0, 6.28),
+                t=int(d.u(-2.0, 2.0) * period_us(sma, body)))
 
 
 def kepler_relative(case, x0_qsw, t):
     """Relative state (QSW of the target at t) of two oracle Kepler orbits; x0 in QSW axes."""
     r = case["sma"]
-    n = mean_motion(r)
-    tgt = tb.kep2cart(r, 0.0, case["inc"], case["raan"], 0.0, case["u0"], mu())
+    body = body_of(case)
+    n = mean_motion(r, body)
+    tgt = tb.kep2cart(r, 0.0, case["inc"], case["raan"], 0.0, case["u0"], mu(body))
 
     def triad(rv):
         q = rv[:3] / np.linalg.norm(rv[:3])
@@ -529,15 +561,15 @@ def kepler_relative(case, x0_qsw, t):
     rho, rhod = np.array(x0_qsw[:3]), np.array(x0_qsw[3:])
     d0 = R0 @ rho
     chs = np.concatenate([tgt[:3] + d0, tgt[3:] + R0 @ rhod + np.cross(n * w0, d0)])
-    tgt_t = tb.propagate_uv(tgt, t, mu())
-    chs_t = tb.propagate_uv(chs, t, mu())
+    tgt_t = tb.propagate_uv(tgt, t, mu(body))
+    chs_t = tb.propagate_uv(chs, t, mu(body))
     R, w = triad(tgt_t)
     dd = chs_t[:3] - tgt_t[:3]
     return np.concatenate([R.T @ dd, R.T @ (chs_t[3:] - tgt_t[3:] - np.cross(n * w, dd))])
 
 
 def check_two_orbits(case):
-    n = mean_motion(case["sma"])
+    n = mean_motion(case["sma"], body_of(case))
     t = case["t"] * US
     m6 = hill.perm6(case["ori"])
     errs = []
@@ -573,9 +605,9 @@ HELPER_KINDS = ["coelliptic", "hohmann", "hohmann_cont", "hohmann_general", "ecc
 @st.composite
 def helper_case(draw, shard, tier):
     d = D(draw)
-    sma, ori, k0 = draw_target(d)
-    P = period_us(sma)
-    return dict(sma=sma, ori=ori, k0=k0, kind=d.pick(*HELPER_KINDS), dist=d.signed(5.0, 5000.0),
+    sma, ori, k0, body = draw_target(d)
+    P = period_us(sma, body)
+    return dict(sma=sma, ori=ori, k0=k0, body=body, kind=d.pick(*HELPER_KINDS), dist=d.signed(5.0, 5000.0),
                 radial0=d.signed(5.0, 5000.0), y0=d.signed(5.0, 20000.0), speed=math.exp(d.u(math.log(0.01), math.log(2.0))),
                 hold=int(d.u(0.0, 0.5) * P) if d.coin() else 0, wait=int(d.u(0.0, 0.5) * P) if d.coin() else 0,
                 frac=d.u(0.05, 0.95))
@@ -605,10 +637,10 @@ def check_helper(case):
     from beyond.propagators.cw import ClohessyWiltshire
     from beyond.utils.cwhelper import CWHelper
 
-    frame = HillFrame(orientation=case["ori"])
+    frame = HillFrame(orientation=case["ori"], center=center_of(body_of(case)))
     prop = ClohessyWiltshire(case["sma"], frame=frame)
     helper = CWHelper(prop)
-    n = mean_motion(case["sma"])
+    n = mean_motion(case["sma"], body_of(case))
     m6 = hill.perm6(case["ori"])
     epoch = epoch_date(case["k0"])
     kind = case["kind"]
@@ -712,8 +744,8 @@ def check_helper(case):
         v = math.copysign(case["speed"], dist)
         compare("during the approach", tq, np.array([0, y_hold + v * (tq - case["hold"]) * US, 0, 0, v, 0]))
     if kind == "coelliptic" and case["wait"] == 0:
-        compare("one period later", case["hold"] + period_us(case["sma"]),
-                np.array([radial0, y_hold - 1.5 * n * radial0 * period_us(case["sma"]) * US, 0, 0, -1.5 * n * radial0, 0]))
+        compare("one period later", case["hold"] + period_us(case["sma"], body_of(case)),
+                np.array([radial0, y_hold - 1.5 * n * radial0 * period_us(case["sma"], body_of(case)) * US, 0, 0, -1.5 * n * radial0, 0]))
     return dict(nt=True, cls=[case["ori"], kind, "hold" if case["hold"] else "immediate"], ratio=worst)
 
 
